@@ -16,6 +16,8 @@ CASES = [
     Case('kron_3d_order', SH, "            mat = sp.kron(mats[0], sp.kron(*mats[1:]))", "            mat = sp.kron(sp.kron(*mats[1:]), mats[0])", 'C17.R4', '3-d'),
     Case('identity_of_aligned_axis_size', SH, "            axis = axes[0]\n            I1D = sp.eye(self.axes[axis].N)", "            axis = axes[0]\n            I1D = sp.eye(self.axes[aligned].N)", 'C17.R4', '2-d'),
     Case('nd_diff_expands_on_first_axis', SH, "            D = D @ self.expand_matrix_ND(_D, axis)", "            D = D @ self.expand_matrix_ND(_D, axes[0])", 'C17.R4', 'SpectralHelper.get_differentiation_matrix'),
+    Case('bc_factor_stored_before_identities', SH, "                mats[ax] = self.get_local_slice_of_1D_matrix(self.axes[ax].get_Id() @ _Id, axis=ax)\n\n            mats[axis] = self.get_local_slice_of_1D_matrix(BC, axis=axis)\n", "                mats[ax] = self.get_local_slice_of_1D_matrix(self.axes[ax].get_Id() @ _Id, axis=ax)\n", 'C17.R5', '3-d', more=[("            for ax in range(ndim):\n                if ax == axis:\n                    continue\n", "            mats[axis] = self.get_local_slice_of_1D_matrix(BC, axis=axis)\n            for ax in range(ndim):\n                if ax == axis:\n                    continue\n")], note='a negative axis is then overwritten by an identity'),
+    Case('bc_kron_2d_reversed', SH, "            mat = self.sparse_lib.csc_matrix(self.sparse_lib.kron(*mats))", "            mat = self.sparse_lib.csc_matrix(self.sparse_lib.kron(*mats[::-1]))", 'C17.R5', '2-d'),
     # twins
     Case('twin_nd_fold_names', SH, "            _S = self.axes[axis].get_integration_matrix()\n            S = S @ self.expand_matrix_ND(_S, axis)", "            S1 = self.axes[axis].get_integration_matrix()\n            S = S @ self.expand_matrix_ND(S1, axis)", benign=True),
     Case('twin_carry_at_loop_start', SH, "        for axis in axes:\n\n            if self.N == u.shape[axis]:\n                _u = u.copy()", "        for axis in axes:\n\n            if self.N == u.shape[axis]:\n                _u = u.copy()  # u is the running array, see end of the loop", benign=True),
